@@ -1330,7 +1330,7 @@ func Run(t *testing.T, pl any) *simcore.Result {
 						if w.drain() {
 							w.fm.WaitIdle()
 						}
-						w.maxTarget = oldHead
+						w.maxTarget = 0 // idle now: only the target set below counts
 						w.probe("shortened-head-serialised-to-avoid-known-crash")
 						w.mu.Lock()
 						w.res.KnownHit(crashKey)
